@@ -26,14 +26,18 @@ Definition step_owned (o : list Z) (c : call) (r : resp) : list Z :=
   end.
 
 (* [bal R o p]: started while owning [o] (descriptors opened by this very
-   operation), for all answers: p never closes a descriptor it does not own --
-   so descriptors lent by the caller are never closed -- and when it returns
-   [a] owning [o'], [R a o'] holds. *)
+   operation), for all answers in which the kernel never hands out a descriptor
+   number the operation is holding (no kernel does: the number is in use): p
+   never closes a descriptor it does not own -- so descriptors lent by the
+   caller are never closed -- and when it returns [a] owning [o'], [R a o'] holds. *)
+Definition fresh_for (o : list Z) (c : call) (r : resp) : Prop :=
+  forall n, In n (opens c r) -> ~ In n o.
+
 Inductive bal {A} (R : A -> list Z -> Prop) : list Z -> prog A -> Prop :=
 | bal_ret a o : R a o -> bal R o (Ret a)
 | bal_call c k o :
     (forall fd, c = Close fd -> mem fd o = true) ->
-    (forall r, bal R (step_owned o c r) (k r)) ->
+    (forall r, fresh_for o c r -> bal R (step_owned o c r) (k r)) ->
     bal R o (Call c k)
 | bal_panic s o : bal R o (Panic s)
 | bal_fuel o : bal R o OutOfFuel.
@@ -49,6 +53,13 @@ Fixpoint trace_owned (t : trace) (o foreign : list Z) : list Z * list Z :=
                       | _ => foreign
                       end in
       trace_owned t' (step_owned o c r) foreign'
+  end.
+
+(* does the trace ever show the kernel handing out a number the operation holds? *)
+Fixpoint trace_fresh (t : trace) (o : list Z) : bool :=
+  match t with
+  | [] => true
+  | (c, r) :: t' => forallb (fun n => negb (mem n o)) (opens c r) && trace_fresh t' (step_owned o c r)
   end.
 
 (* [n_leaked; leaked...; n_foreign; foreign...] *)
